@@ -39,7 +39,7 @@ def parseKind (s : String) : Option Kind :=
   | ["cmd", n, f] => do let n ← decodeStr n; let f ← parseBool f; pure (.cmd n f)
   | _ => none
 
-def addNode (prog : Prog) (idx : Nat) (parent : Int) (k : Kind) (thr : Option Rat) (kp : String) (inProg : Bool) : Option Prog :=
+def addNode (prog : Prog) (idx : Nat) (parent : Int) (k : Kind) (thr : Option Rat) (kp : List Nat) (inProg : Bool) : Option Prog :=
   if idx ≠ prog.size then none else
   let par : Option Nat := if parent < 0 then none else some parent.toNat
   let prog := prog.push { kind := k, parent := par, children := [], threshold := thr, keyPath := kp, inProgram := inProg }
@@ -66,7 +66,7 @@ def showEvent : Event → Option String
   | .effect n w => if w.startsWith "cmd:" then some s!"cmd:{n}:{(w.drop 4).toString}" else none
   | _ => none
 
-def observe (s : St) : String :=
+def observe (size : Nat) (s : St) : String :=
   let err := if s.lastError.isSome then "1" else "0"
   let blk := match s.blockTag with | none => "-" | some b => if b = "" then "-" else encodeStr b
   "|".intercalate [
@@ -77,14 +77,14 @@ def observe (s : St) : String :=
     "imap=" ++ ",".intercalate (s.imap.map (fun e => toString e.1)),
     "macros=" ++ ",".intercalate (s.macros.map (fun e => encodeStr e.1 ++ "=" ++ toString e.2)),
     "ev=" ++ " ".intercalate (s.events.reverse.filterMap showEvent),
-    "fl=" ++ " ".intercalate (s.rt.toList.map showFlags)]
+    "fl=" ++ " ".intercalate ((List.range size).map (fun k => showFlags (s.rt k)))]
 
 def ensure (d : DS) : St := match d.st with | some s => s | none => init d.prog
 
 def step (d : DS) (line : String) : DS × String :=
   match fields line with
   | ["node", idx, par, kind, thr, kp, inProg] =>
-    match idx.toNat?, par.toInt?, parseKind kind, decodeStr kp, parseBool inProg with
+    match idx.toNat?, par.toInt?, parseKind kind, natList kp, parseBool inProg with
     | some idx, some par, some k, some kp, some ip =>
       let thr? : Option (Option Rat) := if thr = "-" then some none else (parseRat thr).map some
       match thr? with
@@ -98,7 +98,8 @@ def step (d : DS) (line : String) : DS × String :=
     match parseRat t, parseRat sc, parseRat bc, intList tags with
     | some t, some sc, some bc, some tags =>
       let (s, ok) := tick d.prog (ensure d) ⟨t, sc, bc, tags⟩
-      ({ d with st := some s }, if ok then observe s else "diverged")
+      let s := compact d.prog.size s
+      ({ d with st := some s }, if ok then observe d.prog.size s else "diverged")
     | _, _, _, _ => (d, "bad-op")
   | ["complete", k] =>
     match k.toNat? with
